@@ -28,7 +28,8 @@ SHARD = 400
 WORKERS = 8
 RULE = ('configurations min 0..3, max 0..4, max_queue_len 0..3 or 2^31-1 (min > max included); operation sequences of '
         'length 3..45 over {request, complete an Open(), release a lent call, expire a queued call, run a spawned '
-        '_ProcessQueue (any pending one), change a connection state (1..4), pool Close, pool Open} from seeded '
+        '_ProcessQueue (any pending one), change a connection state (1..4), pool Close, pool Open; Open() results completing '
+        'later (ok or failed) or before Open() returns} from seeded '
         'generators in four families (healthy, faults, closing, bursts above max+maxq with every-subset expiry), an '
         'exhaustive enumeration of all sequences of a 9-letter alphabet for (1,1,2) (depth 3 quick / 5 thorough), '
         'plus not-enabled labels; every case is followed by a recorded drain epilogue (run hand-offs, complete opens, '
@@ -41,14 +42,20 @@ ASSUMPTIONS = ['provider.CreateSink and connection.Open() do not raise synchrono
                'gevent runs spawned greenlets in spawn order; the model allows any pending _ProcessQueue to run (superset)',
                'a time-out of a call that already holds a connection is the same stack unwinding as a reply (label Resp); '
                'a time-out while blocked in Open().wait() does not involve the pool',
-               'liveness clauses (hand-off, nobody waits below capacity, every call completes) are checked on pools that '
-               'were never closed; a closed pool only counts returned connections down (DESIGN C07_size note)']
+               'liveness clauses (hand-off, nobody waits below capacity, every call completes, retention <= min) are checked on '
+               'pools that were never closed; safety clauses (<= max connections, exclusive lending, queue bound, answered at '
+               'most once) are checked always. Observation, not a finding (lead decision): _Get never looks at the pool state, '
+               'so a request that reaches an already closed and saturated pool is queued and then neither served nor failed '
+               '(min=0,max=1: Req0, OpenDone s0, pool.Close(), Req1 queued, Resp0 only counts the size down; call 1 waits for '
+               'its own time-out; watermark.py:137-138); a closed pool only counts returned connections down and does not '
+               'close them (DESIGN C07_size note)']
 
 MANIFEST = {
     'text': ('Theorems C07_size, C07_exclusive, C07_queue, C07_fifo, C07_no_leak, C07_handoff, C07_retention, '
              'C07_dead_on_release (and C07_once) hold for every configuration and every label sequence of the Gallina '
              'transcription of the watermark pool; the transcription is compared in lock-step with the real '
-             'WatermarkPoolSink on ~2k (quick) / ~60k (thorough) operation sequences per run.'),
+             'WatermarkPoolSink on ~2k (quick) / ~83k (thorough, incl. all 9^5 sequences over a 9-letter alphabet for (1,1,2)) '
+             'operation sequences per run, each followed by a drain to quiescence.'),
     'note': ('Trusted: Coq kernel; the correspondence harness (harness/props/c07.py: mock connections, captured spawn) and '
              'its sampling; gevent FIFO scheduling. Liveness clauses are stated for pools that were never closed.'),
     'technique': 'Coq proof (inductive invariants over all label sequences) + lock-step differential execution model vs code + reference-spec monitor',
@@ -130,7 +137,16 @@ def setup():
 
     def Open(self):
       self.open_ar = AsyncResult()
-      self.h.open_pending.append(self.sid)
+      h = self.h
+      if h.imm:
+        # Open() completes before it returns (eg an already open shared connection): wait() does not yield.
+        # In the model this is `Req; OpenDone s` back to back; what was seen so far belongs to the first label.
+        h.imm = False
+        gs, gq = h.gauges()
+        h.split = (self.sid, {'ev': list(h.events), 'ps': h.pool.state, 'gs': gs, 'gq': gq}, len(h.events))
+        self.open_ar.set(None)
+      else:
+        h.open_pending.append(self.sid)
       return self.open_ar
 
     def Close(self):
@@ -202,6 +218,8 @@ class _H(object):
     self.pending = []          # captured spawns
     self.open_pending = []     # sids whose Open() result is not completed yet
     self.finished = False
+    self.imm = False
+    self.split = None
     self.ncall = 0
     self.stacks = {}
     self.status = {}           # cid -> opening | queued | lent | done
@@ -351,11 +369,22 @@ def run_impl(case):
   try:
     def do(o):
       h.events = []
+      h.split = None
+      h.imm = bool(o.get('imm')) and o['op'] in ('req', 'open')
       lab = h.op(o)
       h.settle()
+      h.imm = False
       h.absorb()
       labels.append(lab)
-      seen.append(h.seen())
+      if h.split is not None:
+        sid, first, n = h.split
+        seen.append(first)
+        labels.append(['OpenDone', sid])
+        rest = h.seen()
+        rest['ev'] = rest['ev'][n:]
+        seen.append(rest)
+      else:
+        seen.append(h.seen())
     for o in case['ops']:
       do(o)
     nops = len(labels)
@@ -534,9 +563,9 @@ def monitor(case, obs):
         if ci['term'] > 1:
           flag('completed-twice', '%s: caller of %d answered %d times' % (at, c, ci['term']))
       elif t == 'openres':
-        if e[1] and sn['ps'] == 4:
-          flag('open-succeeded-on-closed-pool', '%s: pool.Open() reported success but the pool is Closed '
-               '(its connection was found dead)' % at)
+        if e[1] and (sn['ps'] == 4 or closed_before or (rel_dead and not any(s == rel for _c, s in fwd_now))):
+          flag('open-succeeded-on-closed-pool', '%s: pool.Open() reported success although the pool is closed / '
+               'its connection was found dead on release' % at)
 
     # -- label-level expectations
     if kind == 'Req':
@@ -623,7 +652,7 @@ def _rand_ops(r, fam, n):
   for _ in range(n):
     k = r.choices(keys, ws)[0]
     if k == 'req':
-      ops.append({'op': 'req'})
+      ops.append({'op': 'req', 'imm': True} if r.random() < 0.12 else {'op': 'req'})
     elif k == 'opendone':
       ops.append({'op': 'opendone', 'i': r.randrange(4), 'ok': r.random() < 0.8})
     elif k in ('resp', 'expire', 'pq'):
@@ -633,7 +662,7 @@ def _rand_ops(r, fam, n):
     elif k == 'close':
       ops.append({'op': 'close'})
     elif k == 'open':
-      ops.append({'op': 'open'})
+      ops.append({'op': 'open', 'imm': True} if r.random() < 0.3 else {'op': 'open'})
     else:
       ops.append(r.choice([{'op': 'resp', 'c': r.randrange(-1, 12)}, {'op': 'expire', 'c': r.randrange(-1, 12)},
                            {'op': 'opendone', 's': r.randrange(-1, 8)}, {'op': 'pq', 'k': r.randrange(0, 4)},
@@ -652,7 +681,6 @@ def _burst(r):
   nq = mq + r.choice([0, 1, 2])
   ops += [{'op': 'req'}] * nq
   mask = r.randrange(1 << mq)
-  off = 0
   for b in range(mq):
     if mask >> b & 1:
       ops.append({'op': 'expire', 'c': mx + b})
@@ -764,8 +792,7 @@ def to_coq(case, obs):
 def nontrivial(case, obs):
   if 'seen' not in obs:
     return False
-  kinds = set()
-  for l, s in zip(obs['labels'], obs['seen']):
+  for s in obs['seen']:
     for e in s['ev']:
       if e[0] == 'spawn' or e[0] == 'err':
         return True
